@@ -9,7 +9,7 @@ from props.c01 import C01, NAMES, CORRUPT, ERR, bl, cq_md, cq_md_dump
 G_METAS = [None, {}, {"version": "1.2"}, {"version": 3}, {"a": {"b": [1, 2]}, "version": "x"}, {"other": True}]
 V_METAS = [{"version": "1"}, {"version": "2.0"}, {"version": ""}]
 PROBES = [{"scope": {"k": "all"}, "env": [[bl("PATH"), bl("/p")], [bl("X"), bl("x0")]]},
-          {"scope": {"k": "build"}, "env": [[bl("PATH"), bl("/p")]]},
+          {"scope": {"k": "build"}, "env": [[bl("PATH"), bl("/p")], [bl("CPATH"), bl("")]]},
           {"scope": {"k": "launch"}, "env": []},
           {"scope": {"k": "process", "p": bl("web")}, "env": [[bl("X"), bl("x0")]]}]
 
@@ -31,6 +31,9 @@ def gen_result(rng, m):
     files = {}
     for _ in range(rng.choice([0, 1, 1, 2])):
         files[tuple(rng.choice([["f"], ["d", "f"], ["d", "e", "g"], ["data.bin"]]))] = rng.choice(["", "data", "x\ny"])
+    # the CNB layer-path directories: the env returned by handle_layer must carry their implicit entries
+    for _ in range(rng.choice([0, 0, 0, 1, 2])):
+        files[tuple(rng.choice([["bin", "tool"], ["lib", "l.so"], ["include", "h.h"], ["pkgconfig", "x.pc"], ["lib", "sub", "y"]]))] = rng.choice(["", "x"])
     return {"md": rng.choice(V_METAS if m == "V" else G_METAS), "env": ins,
             "execd": [[bl(k), v] for k, v in progs.items()],
             "sboms": [[rng.randint(0, 2), bl(rng.choice(["{}", "{\"a\":1}", ""]))] for _ in range(rng.choice([0, 1, 2, 3]))],
@@ -68,8 +71,8 @@ class C02(C01):
             "non-trivial = a callback ran on an existing layer.")
     trusted_base = C01.trusted_base + ["LayerEnv probes: returned env is compared through LayerEnv::apply on fixed probe environments (C04's model)"]
     assumptions = ["metadata returned by callbacks deserialises as the layer's metadata type (Rust's type system); "
-                   "files written by create/update avoid the CNB layer-path directory names (bin, lib, include, pkgconfig), "
-                   "whose implicit entries are C03's subject"]
+                   "the absolute layer directory inside implicit layer-path values (bin, lib, include, pkgconfig written by "
+                   "callbacks) is rewritten to the model's layer root before comparison"]
 
     def corpus(self):
         return []
@@ -157,7 +160,11 @@ class C02(C01):
                 if r["ok"] and r["path_ok"]:
                     t = r["types"]
                     ty = "None" if t is None else f"(Some (mkT {cq_bool(t['launch'])} {cq_bool(t['build'])} {cq_bool(t['cache'])}))"
-                    res = "(TOk %s %s %s)" % (ty, cq_md_dump(r["md"]), cq_list([cq_pairs(p) for p in r["probes"]]))
+                    # implicit layer paths hold the absolute layer directory; the model's layer directory is the
+                    # root of the per-layer file system, so strip that prefix from the observed values
+                    lp = r["layer_path"].encode()
+                    probes = [[[k, list(bytes(v).replace(lp, b""))] for k, v in p] for p in r["probes"]]
+                    res = "(TOk %s %s %s)" % (ty, cq_md_dump(r["md"]), cq_list([cq_pairs(p) for p in probes]))
                 else:
                     res = f"(TErr {ERR.get(r.get('err'), 'EFuelH')})"
                 steps.append("(XHandle %s %s %s %s %s)" % (cq_bytes(op["n"].encode()), self.cq_layer(op["layer"]), res, cq_list(calls), self.cq_store(ob["post"])))
